@@ -348,24 +348,41 @@ impl Conn {
         }
         for _ in 0..4096 {
             match NetworkBehaviour::poll(&mut self.behaviour, &mut cx) {
-                Poll::Ready(ToSwarm::GenerateEvent(ev)) => match ev {
-                    identify::Event::Received { connection_id, peer_id, info } => {
-                        assert!(connection_id == self.conn && peer_id == self.p);
-                        outs.push(format!("recv {}", info_tok(&info, it)));
+                Poll::Ready(ToSwarm::GenerateEvent(ev)) => {
+                    if let identify::Event::Received { connection_id, peer_id, .. } = &ev {
+                        assert!(*connection_id == self.conn && *peer_id == self.p);
                     }
-                    identify::Event::Error { error, .. } => outs.push(match error {
-                        libp2p_swarm::StreamUpgradeError::Apply(e) => err_tok(&e).to_string(),
-                        libp2p_swarm::StreamUpgradeError::Timeout => "err:Timeout".into(),
-                        _ => "err:Other".into(),
-                    }),
-                    identify::Event::Sent { .. } => outs.push("sent".into()),
-                    identify::Event::Pushed { .. } => outs.push("pushed".into()),
-                },
+                    outs.push(event_tok(ev, &self.p, it));
+                }
                 Poll::Ready(_) => {}
                 Poll::Pending => break,
             }
         }
         outs
+    }
+}
+
+fn event_tok(ev: identify::Event, p: &PeerId, it: &mut Intern) -> String {
+    match ev {
+        identify::Event::Received { peer_id, info, .. } => {
+            assert!(peer_id == *p);
+            format!("recv {}", info_tok(&info, it))
+        }
+        identify::Event::Error { error, .. } => match error {
+            libp2p_swarm::StreamUpgradeError::Apply(e) => err_tok(&e).to_string(),
+            libp2p_swarm::StreamUpgradeError::Timeout => "err:Timeout".into(),
+            _ => "err:Other".into(),
+        },
+        identify::Event::Sent { .. } => "sent".into(),
+        identify::Event::Pushed { .. } => "pushed".into(),
+    }
+}
+
+fn join_outs(outs: Vec<String>) -> String {
+    match outs.len() {
+        0 => "none".to_string(),
+        1 => outs[0].clone(),
+        _ => format!("multi {}", outs.join(" | ")),
     }
 }
 
@@ -390,17 +407,33 @@ struct OpSpec {
     kind: &'static str,
     raw: RawIdentify,
     ideal: char,
+    /// `wire-*` ops: the raw bytes of the stream (malformed on purpose), no message
+    wire: Vec<u8>,
 }
 
 fn exec_case(out: &mut Out, idx: u64, class: &str, nt: bool, p: PeerId, ops: &[OpSpec]) {
     out.case(idx, &format!("{} nt={} p={}", class, nt as u8, hex(&p.to_bytes())));
     let mut it = Intern::default();
     let mut conn = Conn::new(p);
+    let mut world: Option<crate::c46_e2e::World> = None;
     for op in ops {
-        let orc = oracle(&op.raw, &mut it);
-        out.op(&format!("{} {} {} {}", op.kind, raw_tokens(&op.raw), op.ideal, orc));
+        if op.kind.starts_with("wire-") {
+            out.op(&format!("{} {}", op.kind, hex(&op.wire)));
+        } else {
+            let orc = oracle(&op.raw, &mut it);
+            out.op(&format!("{} {} {} {}", op.kind, raw_tokens(&op.raw), op.ideal, orc));
+        }
         let raw = op.raw.clone();
         let res = hcore::guarded(|| match op.kind {
+            "wire-identify" | "wire-push" => {
+                let pushed = if op.kind == "wire-identify" {
+                    hook::inject_identify_stream(&mut conn.handler, op.wire.clone())
+                } else {
+                    hook::inject_push_stream(&mut conn.handler, op.wire.clone())
+                };
+                assert!(pushed);
+                join_outs(conn.drain(&mut it))
+            }
             "tryfrom" => match hook::info_try_from(raw) {
                 Err(e) => err_tok(&e).to_string(),
                 Ok(info) => {
@@ -425,11 +458,19 @@ fn exec_case(out: &mut Out, idx: u64, class: &str, nt: bool, p: PeerId, ops: &[O
                     hook::inject_push_stream(&mut conn.handler, wire)
                 };
                 assert!(pushed);
-                let outs = conn.drain(&mut it);
-                match outs.len() {
-                    0 => "none".to_string(),
-                    1 => outs[0].clone(),
-                    _ => format!("multi {}", outs.join(" | ")),
+                join_outs(conn.drain(&mut it))
+            }
+            "e2e-identify" | "e2e-push" => {
+                if world.is_none() {
+                    let k = (0..NKEYS).find(|i| pool_id(*i) == p).expect("e2e: p must be a pool key");
+                    world = Some(crate::c46_e2e::World::new(&pool().keys[k]));
+                }
+                let w = world.as_mut().unwrap();
+                let wire = frame(&raw.encode());
+                let r = if op.kind == "e2e-identify" { w.identify(wire) } else { w.push(wire) };
+                match r {
+                    Err(e) => format!("rig-error {}", e.replace(' ', "_")),
+                    Ok(evs) => join_outs(evs.into_iter().map(|e| event_tok(e, &p, &mut it)).collect()),
                 }
             }
             k => format!("bad-op-{k}"),
@@ -692,6 +733,33 @@ fn gen_push(rng: &mut Rng, p_idx: usize, apool: &[Vec<u8>]) -> (RawIdentify, boo
     (raw, foreign)
 }
 
+/// a byte stream that cannot yield a message: empty, over-long length prefix, truncated body,
+/// a body that is not protobuf, an unterminated length varint
+fn malformed_wire(rng: &mut Rng, valid: &RawIdentify) -> Vec<u8> {
+    let body = valid.encode();
+    match rng.below(5) {
+        0 => vec![],
+        1 => {
+            // declared length 4097..=20000 (> MAX_MESSAGE_SIZE_BYTES), body as long as declared
+            let n = 4097 + rng.usize(16000);
+            let mut v = frame(&vec![0u8; n]);
+            v.truncate(rng.usize(v.len()) + 2);
+            v
+        }
+        2 => {
+            let mut v = frame(&body);
+            if body.is_empty() {
+                return vec![0x05, 0x0a];
+            }
+            let cut = 1 + rng.usize(body.len());
+            v.truncate(v.len() - cut);
+            v
+        }
+        3 => frame(&[0x0f, 0xff, 0xff]), // field 1, wire type 7 (invalid)
+        _ => vec![0x80; 1 + rng.usize(12)],
+    }
+}
+
 fn key_classes(p_idx: usize, rng: &mut Rng) -> Vec<KeyF> {
     let o = other_key(rng, p_idx);
     vec![
@@ -719,16 +787,26 @@ pub fn run(args: &Args, out: &mut Out) {
                 .expect("p= in case header");
             let specs: Vec<OpSpec> = ops
                 .iter()
-                .map(|t| OpSpec {
+                .map(|t| if t[0].starts_with("wire-") {
+                    OpSpec {
+                        kind: if t[0] == "wire-identify" { "wire-identify" } else { "wire-push" },
+                        raw: RawIdentify::default(),
+                        ideal: 'x',
+                        wire: unhex(&t[1]),
+                    }
+                } else { OpSpec {
                     kind: match t[0].as_str() {
                         "tryfrom" => "tryfrom",
                         "identify" => "identify",
                         "push" => "push",
+                        "e2e-identify" => "e2e-identify",
+                        "e2e-push" => "e2e-push",
                         _ => "bad",
                     },
                     raw: raw_from_tokens(&t[1..8]),
                     ideal: t[8].chars().next().unwrap_or('x'),
-                })
+                    wire: vec![],
+                }})
                 .collect();
             exec_case(out, idx, &class, nt, p, &specs);
         }
@@ -749,8 +827,8 @@ pub fn run(args: &Args, out: &mut Out) {
                     let key = key_classes(p_idx, &mut rng)[kc];
                     let (raw, ideal) = gen_identify(&mut rng, &p, key, rec, &apool);
                     let ops = vec![
-                        OpSpec { kind: "tryfrom", raw: raw.clone(), ideal },
-                        OpSpec { kind: "identify", raw, ideal },
+                        OpSpec { kind: "tryfrom", raw: raw.clone(), ideal, wire: vec![] },
+                        OpSpec { kind: "identify", raw, ideal, wire: vec![] },
                     ];
                     let nt = matches!(key, KeyF::Pool(_));
                     exec_case(out, idx, &format!("sys-k{kc}-{rec:?}"), nt, p, &ops);
@@ -758,6 +836,29 @@ pub fn run(args: &Args, out: &mut Out) {
                 }
             }
         }
+    }
+    // ---- end-to-end sessions: two real swarms, the remote is a raw protobuf writer
+    let n_e2e = if args.count > 0 { args.count / 6 } else if args.thorough { 3000 } else { 300 };
+    for _ in 0..n_e2e {
+        let mut rng = Rng::for_case(args.seed, idx);
+        let p_idx = rng.usize(NKEYS);
+        let p = pool_id(p_idx);
+        let apool = addr_pool(&p, &mut rng);
+        let key = if rng.chance(7, 10) {
+            KeyF::Pool(p_idx)
+        } else {
+            let ks = key_classes(p_idx, &mut rng);
+            *rng.pick(&ks)
+        };
+        let rec = if rng.chance(2, 5) { Rec::ValidSame } else { *rng.pick(&RECS) };
+        let (raw, ideal) = gen_identify(&mut rng, &p, key, rec, &apool);
+        let mut ops = vec![OpSpec { kind: "e2e-identify", raw, ideal, wire: vec![] }];
+        for _ in 0..rng.usize(4) {
+            let (raw, _) = gen_push(&mut rng, p_idx, &apool);
+            ops.push(OpSpec { kind: "e2e-push", raw, ideal: 'x', wire: vec![] });
+        }
+        exec_case(out, idx, "e2e", key == KeyF::Pool(p_idx), p, &ops);
+        idx += 1;
     }
     // ---- random sessions: identify / push sequences on one connection
     let n = args.n(700, 12000);
@@ -771,9 +872,14 @@ pub fn run(args: &Args, out: &mut Out) {
         let mut nt = false;
         for j in 0..len {
             let push = if j == 0 { rng.chance(1, 6) } else { rng.chance(3, 5) };
-            if push {
+            if rng.chance(1, 10) {
+                let (valid, _) = gen_push(&mut rng, p_idx, &apool);
+                let wire = malformed_wire(&mut rng, &valid);
+                let kind = if push { "wire-push" } else { "wire-identify" };
+                ops.push(OpSpec { kind, raw: RawIdentify::default(), ideal: 'x', wire });
+            } else if push {
                 let (raw, _) = gen_push(&mut rng, p_idx, &apool);
-                ops.push(OpSpec { kind: "push", raw, ideal: 'x' });
+                ops.push(OpSpec { kind: "push", raw, ideal: 'x', wire: vec![] });
             } else {
                 let key = if rng.chance(7, 10) {
                     KeyF::Pool(p_idx)
@@ -787,7 +893,7 @@ pub fn run(args: &Args, out: &mut Out) {
                     nt = true;
                 }
                 let kind = if rng.chance(1, 8) { "tryfrom" } else { "identify" };
-                ops.push(OpSpec { kind, raw, ideal });
+                ops.push(OpSpec { kind, raw, ideal, wire: vec![] });
             }
         }
         exec_case(out, idx, "session", nt, p, &ops);
